@@ -164,9 +164,7 @@ func reconnectTraces(t *testing.T, h *H) {
 				}
 				r.net.cutAll()
 				time.Sleep(10 * time.Minute)
-				m.Close()
-				r.close()
-				time.Sleep(10 * time.Minute)
+				r.shutdown(m)
 			})
 			sort.SliceStable(tevs, func(i, j int) bool {
 				if tevs[i].at != tevs[j].at {
@@ -337,9 +335,7 @@ func offlineBuffer(t *testing.T, h *H) {
 				}
 			}
 			time.Sleep(2 * time.Minute)
-			m.Close()
-			r.close()
-			time.Sleep(10 * time.Minute)
+			r.shutdown(m)
 		})
 		for _, e := range plan {
 			desc = append(desc, fmt.Sprintf("%d:%s%s%s", e.id, e.phase, map[bool]string{true: ":volatile"}[e.volatile], map[bool]string{true: ":ack"}[e.ack]))
